@@ -143,7 +143,11 @@ def run_scope(prop, geom, run, seed, tag):
     r = {'args': run['args'], 'geom': geom, 'ok': True, 'mismatch': None, 'violations': [], 'summary': None,
          'base': base}
     if rc != 0:
-        r['ok'] = False; r['error'] = 'harness failed: ' + out[-2000:]; return r
+        r['ok'] = False; r['error'] = 'harness failed: ' + out[-2000:]
+        if rc == 77 or 'C18-GUARD' in out:
+            # an access outside an exactly sized metadata buffer hit the guard page
+            r['guard'] = 'C18-GUARD: the harness faulted on an access outside a metadata buffer (exit %s): %s' % (rc, out[-300:].strip())
+        return r
     try:
         summ = json.loads(out.strip().splitlines()[-1])
     except Exception as ex:
@@ -336,9 +340,21 @@ def main():
             r = run_scope(prop, g, run, seed * 1000 + ri, f'r{ri}')
             runs.append({k: r.get(k) for k in ('args', 'geom', 'ok', 'lines', 'wall_s', 'error')})
             if r.get('error'):
-                problems.append(('run', r['error'], {'kind': 'correspondence', 'broken': ' '.join(run['args']), 'log': r['error']}))
+                if r.get('guard') and 'C18' in spec['oracles']:
+                    problems.append(('oracle', 'C18: ' + r['guard'],
+                                     {'kind': 'command', 'geom': g, 'violation': {'prop': 'C18', 'msg': r['guard']},
+                                      'command': [harness_bin(g)] + [a.replace('{seed}', str(seed * 1000 + ri)) for a in run['args']],
+                                      'replay_cmd': 'run the command: it is killed by the guard page (exit 77)'}))
+                else:
+                    problems.append(('run', r['error'], {'kind': 'correspondence', 'broken': ' '.join(run['args']), 'log': r['error']}))
                 continue
             summ = r['summary']
+            if summ.get('guard_hits', 0) and 'C18' in spec['oracles']:
+                problems.append(('oracle', f"C18: {summ['guard_hits']} metadata buffer(s) had the bytes in front of them overwritten",
+                                 {'kind': 'command', 'geom': g, 'violation': {'prop': 'C18', 'msg': 'canary in front of a metadata buffer overwritten'},
+                                  'command': [harness_bin(g)] + [a.replace('{seed}', str(seed * 1000 + ri)) for a in run['args']]}))
+            guarded = summ.get('guarded_buffers', 0)
+            conc_stats['guarded_buffers'] = conc_stats.get('guarded_buffers', 0) + guarded
             total_lines += r.get('lines', 0)
             sigs += summ.get('distinct_signatures', 0)
             for k, v in summ.get('oracle_checks', {}).items():
